@@ -1,0 +1,19 @@
+//go:build verif
+
+package dockerlog
+
+// Contracts for the deductive verifier in /verif (govc). Comment-only: no code is added.
+
+//@ func match
+//@   pure
+//@   ensures[Eq]    m.Op == logql.OpEq    ==> ret0 == (s == m.Value)
+//@   ensures[NotEq] m.Op == logql.OpNotEq ==> ret0 == (s != m.Value)
+//@   ensures[Re]    m.Op == logql.OpRe    ==> ret0 == m.Re.MatchString(s)
+//@   ensures[NotRe] m.Op == logql.OpNotRe ==> ret0 == !m.Re.MatchString(s)
+//@   ensures[other] !(m.Op == logql.OpEq || m.Op == logql.OpNotEq || m.Op == logql.OpRe || m.Op == logql.OpNotRe) ==> !ret0
+
+//@ func (containerLabels).Match
+//@   pure_heap
+//@   ensures ret0 == forall(0, len(matchers), func(k int) bool { return match(matchers[k], c.labels[string(matchers[k].Label)]) })
+//@   loop 0 invariant rangeindex+1 <= len(matchers)
+//@   loop 0 invariant forall(0, rangeindex+1, func(k int) bool { return match(matchers[k], c.labels[string(matchers[k].Label)]) })
